@@ -35,12 +35,12 @@ PROP = dict(
     jobs=dict(
         quick=[
             job("chainntnfs", "^TestVerifC14Machine$", ["TestVerifC14Machine"], 6000, shards=6),
-            job("chainntnfs", "^TestVerifC14MachineBolt$", ["TestVerifC14MachineBolt"], 60, shards=4),
+            job("chainntnfs", "^TestVerifC14MachineBolt$", ["TestVerifC14MachineBolt"], 30, shards=8),
         ],
         thorough=[
             job("chainntnfs", "^TestVerifC14Machine$", ["TestVerifC14Machine"], 25000, shards=16, timeout=1500,
                 env=dict(VERIF_C14_LEN=70)),
-            job("chainntnfs", "^TestVerifC14MachineBolt$", ["TestVerifC14MachineBolt"], 400, shards=8, timeout=1500,
+            job("chainntnfs", "^TestVerifC14MachineBolt$", ["TestVerifC14MachineBolt"], 200, shards=16, timeout=1500,
                 env=dict(VERIF_C14_LEN_BOLT=45)),
         ],
     ),
